@@ -4,7 +4,7 @@
    signals with a value table, the kind only; the full statement is
    Acme.C10.Proofs.import_signal_faithful_full_statement. *)
 From Coq Require Import String ZArith List.
-From Acme.C10 Require Import DbcDoc BusModel Import Bits BitsProofs Proofs ProofsEnum ProofsLayout ProofsFaithful ProofsMux ProofsExtMux ProofsDecode ProofsIds ProofsEnumMux ProofsAttrs.
+From Acme.C10 Require Import DbcDoc BusModel Import Bits BitsProofs Proofs ProofsEnum ProofsLayout ProofsFaithful ProofsMux ProofsExtMux ProofsDecode ProofsIds ProofsEnumMux ProofsAttrs ProofsAttrsAll ProofsTraverse ProofsAttrsSig.
 Import ListNotations.
 Open Scope Z_scope.
 
@@ -200,3 +200,16 @@ Theorem import_message_fields : forall d b, import d = Ok b ->
   exists amap, def_map d = Ok amap /\ Forall (MF d amap) (b_messages b).
 Proof. exact ProofsAttrs.import_message_fields. Qed.
 Print Assumptions import_message_fields.
+
+(* attribute data on NODES, MESSAGES and SIGNALS of any accepted document: every assignment an imported node /
+   message / signal carries, and a signal's start value / send type when not 0, comes from a BA_ line of the
+   matching object kind that names this node, this message's CAN-ID, or - through the importer's signals map,
+   which is sound (`sm_ok`: an entry points to the message at that position with that CAN-ID, and the signal of
+   that message with the entry's id has the entry's name) - this signal; under the importer's definition for
+   the attribute name, with the value read by `attr_value`, conforming to the definition *)
+Theorem import_attributes_spec : forall d b, import d = Ok b ->
+  exists amap sm, def_map d = Ok amap /\
+    Forall (NA d amap) (b_nodes b) /\ Forall (MA d amap) (b_messages b) /\
+    sm_ok (b_messages b) sm /\ SAs d amap sm (b_messages b).
+Proof. exact ProofsAttrsSig.import_attributes_spec. Qed.
+Print Assumptions import_attributes_spec.
